@@ -16,6 +16,19 @@ impl FangAction for CtxFang {
     }
 }
 
+/// a fang that scrubs the hop-by-hop `Connection` header off the request once the inner handler has answered (when the request carries `X-Scrub`):
+/// whether the session closes must follow what the client sent, not what fangs left in the request
+#[derive(Clone)] struct Scrub;
+struct ScrubProc<I: ohkami::FangProc>(I);
+impl<I: ohkami::FangProc> ohkami::FangProc for ScrubProc<I> {
+    async fn bite<'b>(&'b self, req: &'b mut Request) -> Response {
+        let res = self.0.bite(req).await;
+        if req.headers.get("X-Scrub").is_some() { req.headers.set().Connection(None); }
+        res
+    }
+}
+impl<I: ohkami::FangProc> ohkami::Fang<I> for Scrub { type Proc = ScrubProc<I>; fn chain(&self, inner: I) -> Self::Proc { ScrubProc(inner) } }
+
 macro_rules! std_echo {
     ($($h:ident),*) => {
         fn std_echo(req: &Request) -> String {
@@ -38,7 +51,7 @@ fn echo(req: &Request) -> std::pin::Pin<Box<dyn std::future::Future<Output = Str
 }
 
 fn ohkami() -> Ohkami {
-    Ohkami::new((CtxFang,
+    Ohkami::new((CtxFang, Scrub,
         "/".GET(echo).POST(echo).PUT(echo).PATCH(echo).DELETE(echo),
         "/:a".GET(echo).POST(echo).PUT(echo).PATCH(echo).DELETE(echo),
         "/:a/:b".GET(echo).POST(echo).PUT(echo).PATCH(echo).DELETE(echo),
